@@ -395,6 +395,9 @@ func runSocksServerSeq(rounds int) ([]*socksTrace, error) {
 		one("alice", alice, []int{2}, true)
 		one("onebyte", []byte{5}, []int{}, false)
 		one("silent", []byte{}, []int{}, false)
+	}
+	// (in rounds of their own, so that the hand-over of pooled buffers in the rounds above stays what it was)
+	for r := 0; r < rounds; r++ {
 		// the version byte arrives alone, the rest later: greeting 05 01 02, then a user/password message that names the
 		// user "\x01\x05" with a password longer than what follows - to be refused. If the bytes "01 02" that the matcher
 		// looked at were lost on the way to the handler, the rest would read as alice's valid login.
